@@ -32,17 +32,17 @@ Proof.
   - destruct (Z.eq_dec b 0) as [->|]; [cbn; lia|apply Z.log2_lt_pow2; lia].
 Qed.
 
-Lemma crc_step_range : forall w p c, 0 < w -> 0 <= p < 2 ^ w -> 0 <= crc_step w p c < 2 ^ w.
+Lemma crc_step_range : forall w top p c, 0 < w -> 0 <= p < 2 ^ w -> 0 <= crc_step top (Z.ones w) p c < 2 ^ w.
 Proof.
-  intros w p c Hw Hp. unfold crc_step.
-  assert (Hm : 0 <= (2 * c) mod 2 ^ w < 2 ^ w) by (apply Z.mod_pos_bound, Z.pow_pos_nonneg; lia).
-  destruct (Z.testbit c (w - 1)); [now apply lxor_range|assumption].
+  intros w top p c Hw Hp. unfold crc_step. rewrite Z.land_ones by lia.
+  assert (Hm : 0 <= Z.shiftl c 1 mod 2 ^ w < 2 ^ w) by (apply Z.mod_pos_bound, Z.pow_pos_nonneg; lia).
+  destruct (Z.testbit c top); [now apply lxor_range|assumption].
 Qed.
 
 Lemma crc16_byte_range : forall c b, 0 <= crc16_byte c b < 65536.
-Proof. intros. unfold crc16_byte, iter8. apply (crc_step_range 16 32773); lia. Qed.
+Proof. intros. unfold crc16_byte, iter8. change 65535 with (Z.ones 16). apply (crc_step_range 16); lia. Qed.
 Lemma crc8_byte_range : forall c b, 0 <= crc8_byte c b < 256.
-Proof. intros. unfold crc8_byte, iter8. apply (crc_step_range 8 7); lia. Qed.
+Proof. intros. unfold crc8_byte, iter8. change 255 with (Z.ones 8). apply (crc_step_range 8); lia. Qed.
 
 Lemma fold_left_range : forall (f : Z -> Z -> Z) (P : Z -> Prop),
   (forall c b, P (f c b)) -> forall bs c, P c -> P (fold_left f bs c).
@@ -755,4 +755,267 @@ Proof.
     pose proof (total_of_bound sp _ Hs) as B. rewrite skipn_length in B. lia. }
   replace (total_of (firstn k frames) <? total_of frames) with true by (symmetry; now apply Z.ltb_lt).
   reflexivity.
+Qed.
+
+(** * the audio of a frame list, and what a loader is specified to return *)
+Lemma fl_audio_app : forall a b, fl_audio (a ++ b) = fl_audio a ++ fl_audio b.
+Proof. intros. unfold fl_audio. now rewrite map_app, concat_app. Qed.
+
+Lemma fl_samples_length : forall fr, length (fl_samples fr) = Z.to_nat (f_n fr).
+Proof. intros. unfold fl_samples. now rewrite map_length, seq_length. Qed.
+
+Lemma fl_audio_length : forall sp frames, Forall (fframe_ok sp) frames ->
+  Z.of_nat (length (fl_audio frames)) = total_of frames.
+Proof.
+  intros sp frames H. induction H as [|fr frames (Hn & _) _ IH]; [reflexivity|].
+  change (fl_audio (fr :: frames)) with (fl_samples fr ++ fl_audio frames).
+  change (total_of (fr :: frames)) with (f_n fr + total_of frames).
+  rewrite app_length, fl_samples_length, Nat2Z.inj_add, IH, Z2Nat.id; lia.
+Qed.
+
+(** the audio of the first [k] frames is a prefix of the audio *)
+Lemma fl_audio_firstn : forall k frames,
+  fl_audio (firstn k frames) = firstn (length (fl_audio (firstn k frames))) (fl_audio frames).
+Proof.
+  intros k frames. rewrite <- (firstn_skipn k frames) at 3. rewrite fl_audio_app.
+  rewrite <- (Nat.add_0_r (length (fl_audio (firstn k frames)))), firstn_app_2.
+  now rewrite firstn_O, app_nil_r.
+Qed.
+
+Lemma fl_glue_all_z_firstn : forall m frs zs,
+  fl_glue_all_z frs = Some zs -> fl_glue_all_z (firstn m frs) = Some (firstn m zs).
+Proof.
+  induction m as [|m IH]; intros frs zs H; [reflexivity|].
+  destruct frs as [|fr frs]; cbn in H |- *.
+  - injection H as <-. reflexivity.
+  - destruct (fl_glue_z fr) as [a|]; [|discriminate].
+    destruct (fl_glue_all_z frs) as [b|] eqn:Hb; [|discriminate].
+    injection H as <-. cbn [firstn]. now rewrite (IH frs b Hb).
+Qed.
+
+Lemma fl_glue_all_z_length : forall frs zs, fl_glue_all_z frs = Some zs -> length zs = length frs.
+Proof.
+  induction frs as [|fr frs IH]; intros zs H; cbn in H.
+  - injection H as <-. reflexivity.
+  - destruct (fl_glue_z fr) as [a|]; [|discriminate].
+    destruct (fl_glue_all_z frs) as [b|] eqn:Hb; [|discriminate].
+    injection H as <-. cbn. now rewrite (IH b).
+Qed.
+
+(** every time step of a well-formed frame has one sample per channel *)
+Lemma fl_samples_width : forall sp fr, fframe_ok sp fr ->
+  Forall (fun st => length st = Z.to_nat (fl_ch sp)) (fl_samples fr).
+Proof.
+  intros sp fr (_ & Hl & _). unfold fl_samples. apply Forall_forall. intros st Hin.
+  apply in_map_iff in Hin as [t [<- _]]. now rewrite map_length.
+Qed.
+Lemma fl_audio_width : forall sp frames, Forall (fframe_ok sp) frames ->
+  Forall (fun st => length st = Z.to_nat (fl_ch sp)) (fl_audio frames).
+Proof.
+  intros sp frames H. induction H as [|fr frames Hfr _ IH]; [constructor|].
+  change (fl_audio (fr :: frames)) with (fl_samples fr ++ fl_audio frames).
+  apply Forall_app. split; [now apply fl_samples_width|assumption].
+Qed.
+
+(** the frames a loader is SPECIFIED to produce from the audio (sp, frames): each time step
+    converted, mono duplicated, stereo as is, more channels unsupported *)
+Definition fl_spec_frames (sp : fspec) (frames : list fframe) : option (list (f32 * f32)) :=
+  option_map (map (fl_to_f32 (fl_bps sp))) (fl_glue_all_z (fl_audio frames)).
+
+Lemma fl_glue_mono : forall steps, Forall (fun st => length st = 1%nat) steps ->
+  fl_glue_all_z steps = Some (map (fun st => (hd 0 st, hd 0 st)) steps).
+Proof.
+  intros steps H. induction H as [|st steps Hst _ IH]; [reflexivity|].
+  cbn [fl_glue_all_z map]. rewrite IH. destruct st as [|m [|? ?]]; cbn in Hst; try lia. reflexivity.
+Qed.
+Lemma fl_glue_stereo : forall steps, Forall (fun st => length st = 2%nat) steps ->
+  fl_glue_all_z steps = Some (map (fun st => (nth 0 st 0, nth 1 st 0)) steps).
+Proof.
+  intros steps H. induction H as [|st steps Hst _ IH]; [reflexivity|].
+  cbn [fl_glue_all_z map]. rewrite IH. destruct st as [|l [|r [|? ?]]]; cbn in Hst; try lia. reflexivity.
+Qed.
+Lemma fl_glue_multi : forall n steps, (3 <= n)%nat -> Forall (fun st => length st = n) steps -> steps <> [] ->
+  fl_glue_all_z steps = None.
+Proof.
+  intros n steps Hn H Hne. destruct H as [|st steps Hst _]; [congruence|].
+  cbn [fl_glue_all_z]. destruct st as [|a [|b [|c ?]]]; cbn in Hst; try lia. reflexivity.
+Qed.
+
+Lemma fl_spec_frames_mono : forall sp frames, fl_ch sp = 1 -> Forall (fframe_ok sp) frames ->
+  fl_spec_frames sp frames =
+  Some (map (fun st => let m := fl_conv (fl_bps sp) (hd 0 st) in (m, m)) (fl_audio frames)).
+Proof.
+  intros sp frames Hc Hf. unfold fl_spec_frames.
+  pose proof (fl_audio_width sp frames Hf) as W. rewrite Hc in W.
+  rewrite (fl_glue_mono _ W). cbn [option_map]. now rewrite map_map.
+Qed.
+Lemma fl_spec_frames_stereo : forall sp frames, fl_ch sp = 2 -> Forall (fframe_ok sp) frames ->
+  fl_spec_frames sp frames =
+  Some (map (fun st => (fl_conv (fl_bps sp) (nth 0 st 0), fl_conv (fl_bps sp) (nth 1 st 0))) (fl_audio frames)).
+Proof.
+  intros sp frames Hc Hf. unfold fl_spec_frames.
+  pose proof (fl_audio_width sp frames Hf) as W. rewrite Hc in W.
+  rewrite (fl_glue_stereo _ W). cbn [option_map]. now rewrite map_map.
+Qed.
+Lemma fl_audio_nonempty : forall sp frames, Forall (fframe_ok sp) frames -> frames <> [] -> fl_audio frames <> [].
+Proof.
+  intros sp frames H Hne E. pose proof (fl_audio_length sp frames H) as L. rewrite E in L. cbn in L.
+  pose proof (total_of_bound sp frames H) as B. destruct frames; [congruence|cbn [length] in B; lia].
+Qed.
+Lemma fl_spec_frames_multi : forall sp frames, 3 <= fl_ch sp -> Forall (fframe_ok sp) frames -> frames <> [] ->
+  fl_spec_frames sp frames = None.
+Proof.
+  intros sp frames Hc Hf Hne. unfold fl_spec_frames.
+  rewrite (fl_glue_multi (Z.to_nat (fl_ch sp))); [reflexivity|lia|now apply fl_audio_width|].
+  now apply (fl_audio_nonempty sp).
+Qed.
+
+Lemma flac_ref_load_of_decode : forall bs sp frames w,
+  flac_decode bs = Some (FDec sp frames w) ->
+  flac_ref_load bs =
+  match w with
+  | StEnd | StShort | StTrunc =>
+      match frames with
+      | [] => LOk (fl_rate sp) []
+      | _ => match fl_spec_frames sp frames with
+             | Some frs => LOk (fl_rate sp) frs
+             | None => LErrChannels
+             end
+      end
+  | _ => LErr
+  end.
+Proof.
+  intros bs sp frames w H. unfold flac_ref_load, flac_ref_load_z, fl_spec_frames. rewrite H.
+  destruct w; try reflexivity; (destruct frames as [|fr frames]; [reflexivity|];
+    destruct (fl_glue_all_z (fl_audio (fr :: frames))); reflexivity).
+Qed.
+
+(** loading a valid file *)
+Lemma flac_load_lemma : forall sp frames,
+  fspec_ok sp -> Forall (fframe_ok sp) frames -> (length frames <= 128)%nat ->
+  flac_ref_load (flac_encode sp frames) =
+  match frames with
+  | [] => LOk (fl_rate sp) []
+  | _ => match fl_spec_frames sp frames with
+         | Some frs => LOk (fl_rate sp) frs
+         | None => LErrChannels
+         end
+  end.
+Proof.
+  intros sp frames Hsp Hf Hl.
+  now rewrite (flac_ref_load_of_decode _ _ _ _ (flac_roundtrip_lemma sp frames Hsp Hf Hl)).
+Qed.
+
+(** a frame with a defect: an error value *)
+Lemma flac_load_bad_lemma : forall sp frames k fr d,
+  fspec_ok sp -> Forall (fframe_ok sp) frames -> (length frames <= 128)%nat ->
+  nth_error frames k = Some fr -> defect_ok fr d ->
+  flac_ref_load (flac_encode_bad sp frames (Some (k, d))) = LErr.
+Proof.
+  intros sp frames k fr d Hsp Hf Hl Hk Hd.
+  rewrite (flac_ref_load_of_decode _ _ _ _ (flac_bad_frame_lemma sp frames k fr d Hsp Hf Hl Hk Hd)).
+  destruct d; reflexivity.
+Qed.
+
+Lemma fl_spec_frames_firstn : forall sp frames k frs,
+  fl_spec_frames sp frames = Some frs ->
+  fl_spec_frames sp (firstn k frames) = Some (firstn (length (fl_audio (firstn k frames))) frs).
+Proof.
+  intros sp frames k frs H. unfold fl_spec_frames in *.
+  destruct (fl_glue_all_z (fl_audio frames)) as [zs|] eqn:E; [|discriminate].
+  cbn [option_map] in H. injection H as <-.
+  set (m := length (fl_audio (firstn k frames))).
+  rewrite fl_audio_firstn. fold m. rewrite (fl_glue_all_z_firstn _ _ _ E). cbn [option_map].
+  now rewrite firstn_map.
+Qed.
+
+(** a file cut anywhere inside frame [k] (or exactly at its start): the valid prefix, ending at
+    the boundary of frame [k] *)
+Lemma flac_load_truncated_lemma : forall sp frames k fr j frs,
+  fspec_ok sp -> Forall (fframe_ok sp) frames -> (length frames <= 128)%nat ->
+  nth_error frames k = Some fr -> (j < length (enc_fframe sp (Z.of_nat k) fr None))%nat ->
+  fl_spec_frames sp frames = Some frs ->
+  flac_ref_load (firstn (42 + length (enc_frames sp 0 (firstn k frames) None) + j) (flac_encode sp frames)) =
+  LOk (fl_rate sp) (firstn (Z.to_nat (total_of (firstn k frames))) frs).
+Proof.
+  intros sp frames k fr j frs Hsp Hf Hl Hk Hj Hfrs.
+  assert (Hklt : (k < length frames)%nat) by (apply nth_error_Some; congruence).
+  assert (Hfk : Forall (fframe_ok sp) (firstn k frames)) by (now apply Forall_firstn).
+  assert (Hlen : length (fl_audio (firstn k frames)) = Z.to_nat (total_of (firstn k frames))).
+  { rewrite <- (fl_audio_length sp _ Hfk). now rewrite Nat2Z.id. }
+  assert (D : exists w, (w = StTrunc \/ w = StShort) /\
+     flac_decode (firstn (42 + length (enc_frames sp 0 (firstn k frames) None) + j) (flac_encode sp frames)) =
+     Some (FDec sp (firstn k frames) w)).
+  { destruct j as [|j].
+    - exists StShort. split; [now right|]. rewrite Nat.add_0_r. now apply flac_cut_at_boundary_lemma.
+    - exists StTrunc. split; [now left|]. apply (flac_truncation_lemma sp frames k fr); try assumption. lia. }
+  destruct D as (w & Hw & D). rewrite (flac_ref_load_of_decode _ _ _ _ D).
+  rewrite (fl_spec_frames_firstn sp frames k frs Hfrs), Hlen.
+  destruct (firstn k frames) as [|f0 fs] eqn:E.
+  - cbn [total_of fold_right Z.to_nat firstn]. destruct Hw as [-> | ->]; reflexivity.
+  - destruct Hw as [-> | ->]; reflexivity.
+Qed.
+
+(** * the encoder writes bytes *)
+Definition is_byte (b : Z) : Prop := 0 <= b < 256.
+
+Lemma le_bytes_bytes : forall n x, Forall is_byte (le_bytes n x).
+Proof.
+  induction n as [|n IH]; intros x; cbn [le_bytes]; constructor; [|apply IH].
+  unfold is_byte. apply Z.mod_pos_bound. lia.
+Qed.
+Lemma be_bytes_bytes : forall n x, Forall is_byte (be_bytes n x).
+Proof. intros. unfold be_bytes. apply Forall_rev, le_bytes_bytes. Qed.
+
+Lemma concat_bytes : forall (ls : list (list Z)), Forall (Forall is_byte) ls -> Forall is_byte (concat ls).
+Proof. intros ls H. induction H as [|l ls Hl _ IH]; cbn [concat]; [constructor|apply Forall_app; now split]. Qed.
+
+Lemma sub_payload_bytes : forall b s, Forall is_byte (sub_payload b s).
+Proof.
+  intros b [v|xs]; cbn [sub_payload]; [apply be_bytes_bytes|].
+  apply concat_bytes. apply Forall_forall. intros l Hl. apply in_map_iff in Hl as [x [<- _]]. apply be_bytes_bytes.
+Qed.
+
+Lemma enc_subs_bytes : forall b subs ci, Forall is_byte (enc_subs b None ci subs).
+Proof.
+  intros b subs. induction subs as [|s subs IH]; intros ci; cbn [enc_subs]; [constructor|].
+  apply Forall_app. split; [|apply IH]. constructor; [|apply sub_payload_bytes].
+  cbn [sub_hdr]. unfold is_byte. destruct (sub_type_cases s) as [-> | ->]; lia.
+Qed.
+
+Lemma enc_fframe_bytes : forall sp idx fr,
+  fspec_ok sp -> fframe_ok sp fr -> 0 <= idx < 128 -> Forall is_byte (enc_fframe sp idx fr None).
+Proof.
+  intros sp idx fr (Hch & _ & Hbs) (Hn & _ & _) Hidx. rewrite enc_fframe_shape. cbv zeta. unfold frame_hdr6.
+  pose proof (fcode_range (fl_bps sp)) as Hc.
+  apply Forall_app. split; [|apply be_bytes_bytes].
+  apply Forall_app. split.
+  - repeat constructor; unfold is_byte; try lia.
+  - constructor; [apply crc8_range|apply enc_subs_bytes].
+Qed.
+
+Lemma enc_frames_bytes : forall sp frames idx,
+  fspec_ok sp -> Forall (fframe_ok sp) frames -> (idx + length frames <= 128)%nat ->
+  Forall is_byte (enc_frames sp idx frames None).
+Proof.
+  intros sp frames. induction frames as [|fr frames IH]; intros idx Hsp Hf Hl; cbn [enc_frames]; [constructor|].
+  inversion Hf as [|? ? Hfr Hf']; subst. cbn [length] in Hl.
+  apply Forall_app. split; [apply enc_fframe_bytes; try assumption; lia|apply IH; try assumption; lia].
+Qed.
+
+Lemma flac_encode_bytes_lemma : forall sp frames,
+  fspec_ok sp -> Forall (fframe_ok sp) frames -> (length frames <= 128)%nat ->
+  Forall (fun b => 0 <= b < 256) (flac_encode sp frames).
+Proof.
+  intros sp frames Hsp Hf Hl. unfold flac_encode, flac_encode_bad.
+  apply Forall_app. split; [|apply (enc_frames_bytes sp frames 0 Hsp Hf); lia].
+  unfold stream_hdr, FLAC_MAGIC.
+  assert (K : forall l, Forall is_byte l -> Forall (fun b => 0 <= b < 256) l) by (intros l H; exact H).
+  apply K.
+  apply Forall_app; split; [repeat constructor; unfold is_byte; lia|].
+  apply Forall_app; split; [apply be_bytes_bytes|].
+  apply Forall_app; split; [apply be_bytes_bytes|].
+  apply Forall_app; split; [repeat constructor; unfold is_byte; lia|].
+  apply Forall_app; split; [apply be_bytes_bytes|].
+  repeat constructor; unfold is_byte; lia.
 Qed.
